@@ -325,29 +325,66 @@ func init() {
 					}
 				}
 			}
-			// select with done arm and timer(d)
+			// select with done arm and timer(d): written in sleepContext, or in a helper only
+			// sleepContext calls (`waitForTimerOrDone(d, done)`), read with its parameters
+			// bound to the operands of that call
 			var sel *ast.SelectStmt
-			ast.Inspect(fd.Body, func(n ast.Node) bool {
-				if s, ok := n.(*ast.SelectStmt); ok {
-					sel = s
-				}
-				return true
-			})
 			var timerObj types.Object
 			timerArgOK := false
 			var timerCall *ast.CallExpr
-			ast.Inspect(fd.Body, func(n ast.Node) bool {
-				as, ok := n.(*ast.AssignStmt)
-				if !ok || len(as.Lhs) != 1 || len(as.Rhs) != 1 {
+			selInfo, selD, selDone := info, dObj, doneObj
+			findWait := func(body *ast.BlockStmt, winfo *types.Info, wd types.Object) {
+				ast.Inspect(body, func(n ast.Node) bool {
+					if s, ok := n.(*ast.SelectStmt); ok {
+						sel = s
+					}
+					as, ok := n.(*ast.AssignStmt)
+					if !ok || len(as.Lhs) != 1 || len(as.Rhs) != 1 {
+						return true
+					}
+					if ce, ok := ast.Unparen(as.Rhs[0]).(*ast.CallExpr); ok && stdFuncCalled(winfo, ce, "time", "NewTimer") {
+						timerObj = identObj(winfo, as.Lhs[0])
+						timerCall = ce
+						timerArgOK = len(ce.Args) == 1 && identObj(winfo, ce.Args[0]) == wd
+					}
 					return true
+				})
+			}
+			findWait(fd.Body, info, dObj)
+			if sel == nil && timerObj == nil {
+				for _, ce := range callsIn(fd.Body, false) {
+					h := originOf(Callee(info, ce))
+					hd := c.declOf[h]
+					if h == nil || hd == nil || hd.Body == nil || h.Pkg() != fn.Pkg() {
+						continue
+					}
+					if _, private := c.privateHelperOf(h, func(n string) bool { return n == u.Name() }, 0); !private {
+						continue
+					}
+					hasSel := false
+					ast.Inspect(hd.Body, func(n ast.Node) bool {
+						if _, ok := n.(*ast.SelectStmt); ok {
+							hasSel = true
+						}
+						return true
+					})
+					if !hasSel {
+						continue
+					}
+					hinfo := c.pkgOf[hd].TypesInfo
+					pd, pdone := boundParam(info, ce, h, dObj), boundParam(info, ce, h, doneObj)
+					if pd == nil || pdone == nil {
+						continue
+					}
+					findWait(hd.Body, hinfo, pd)
+					selInfo, selD, selDone = hinfo, pd, pdone
+					// the deadline refusal below is judged where the helper is called
+					if timerCall != nil {
+						timerCall = ce
+					}
 				}
-				if ce, ok := ast.Unparen(as.Rhs[0]).(*ast.CallExpr); ok && stdFuncCalled(info, ce, "time", "NewTimer") {
-					timerObj = identObj(info, as.Lhs[0])
-					timerCall = ce
-					timerArgOK = len(ce.Args) == 1 && identObj(info, ce.Args[0]) == dObj
-				}
-				return true
-			})
+			}
+			_ = selD
 			if sel == nil || timerObj == nil {
 				obs = append(obs, mkOb(c, "SLEEP.context", u, "interruptible wait", fd, Violated, "no select over a timer found", true))
 			} else {
@@ -371,10 +408,10 @@ func init() {
 					if !ok || ue.Op != token.ARROW {
 						continue
 					}
-					if identObj(info, ue.X) == doneObj {
+					if identObj(selInfo, ue.X) == selDone {
 						hasDone = true
 					}
-					if se, ok := ast.Unparen(ue.X).(*ast.SelectorExpr); ok && identObj(info, se.X) == timerObj && se.Sel.Name == "C" {
+					if se, ok := ast.Unparen(ue.X).(*ast.SelectorExpr); ok && identObj(selInfo, se.X) == timerObj && se.Sel.Name == "C" {
 						hasTimer = true
 					}
 				}
@@ -468,6 +505,8 @@ func init() {
 					construct := ord.next("call time." + fn.Name())
 					if u.Name() == "lisp/lisplib/libtime.sleepContext" {
 						obs = append(obs, mkOb(c, "SLEEP.only-here", u, construct, ce, Proved, "inside sleepContext (shape checked by SLEEP.context)", false))
+					} else if via, ok := c.privateHelperOf(u.Obj, func(n string) bool { return n == "lisp/lisplib/libtime.sleepContext" }, 0); ok && fn.Name() == "NewTimer" {
+						obs = append(obs, mkOb(c, "SLEEP.only-here", u, construct, ce, Proved, "inside a helper only "+via+" calls (shape checked by SLEEP.context)", false))
 					} else {
 						obs = append(obs, mkOb(c, "SLEEP.only-here", u, construct, ce, Violated, "blocking time call in the kernel outside sleepContext: not bounded by cap, deadline or cancellation", false))
 					}
